@@ -144,7 +144,14 @@ func execStop(input string) Result {
 		// with outlinks the crawl does not end by itself within the budget: stop it somewhere
 		sp.StopAt = &Trigger{"fin.notified", 2}
 	}
-	res, evs, status := runChild(sp, time.Duration(sp.TimeoutMs+20000)*time.Millisecond)
+	// a stop point that is never reached (stop=diskpaused with a disk that never becomes low) in a crawl that does not come
+	// to rest within the budget (outlinks, rate limiter, loaded machine): the stop is then requested when the budget ends
+	// and judged like any other - giving such a run up WITHOUT a stop made monitor 0 fire on unchanged code (thorough tier)
+	sp.StopAtDeadline = true
+	if v, err := strconv.Atoi(os.Getenv("ZV_STOP_BUDGET_MS")); err == nil && v > 0 { // debugging aid: make the budget end early
+		sp.TimeoutMs = v
+	}
+	res, evs, status := runChild(sp, time.Duration(sp.TimeoutMs+sp.TimeoutMs/2+20000)*time.Millisecond)
 	busy, _ := abstractStopState(evs)
 	sc := scanWarcDir(filepath.Join(sp.Dir, "jobs"))
 	crashed := res == nil || (status != "" && !strings.HasPrefix(status, "watchdog"))
